@@ -46,6 +46,7 @@ class NumpySerializedList(collections.UserList):
         return len(self._addr)
 
     def __getitem__(self, idx):
+        idx = operator.index(idx)  # numpy scalars would wrap around / overflow
         if -len(self) <= idx < 0:
             idx += len(self)
         start_addr = 0 if idx == 0 else self._addr[idx - 1].item()
@@ -2800,6 +2801,8 @@ class ConcatenateDataset(Dataset):
 
         """
         if isinstance(item, numbers.Integral):
+            # Python int: narrow numpy scalars would overflow in the arithmetic
+            item = int(item)
             _item = item
             if item < 0:
                 item = item + len(self)
@@ -3272,6 +3275,8 @@ class BatchDataset(Dataset):
 
     def __getitem__(self, item):
         if isinstance(item, numbers.Integral):
+            # Python int: narrow numpy scalars would wrap around below
+            item = int(item)
             if item < 0:
                 # only touch len when necessary
                 item = item + len(self)
@@ -3685,6 +3690,8 @@ class CacheDataset(Dataset):
                 raise KeyErrorCloseMatches(item, self.keys()) from None
 
         if isinstance(item, numbers.Integral):
+            # Python int: narrow numpy scalars would overflow in the arithmetic
+            item = int(item)
             if item < 0:
                 # ds[-1] and ds[len(ds) - 1] are the same example and have to
                 # share one cache entry.
